@@ -6,14 +6,53 @@ NOTES = ("All checks are property-based tests / fuzzers (rapid v1.3.0, exhaustiv
 
 ALL = ["C%02d" % i for i in range(1, 21)]
 
+VT = "Scenarios run in virtual time (testing/synctest), so thousands of fault schedules per minute are explored; goroutine interleavings are sampled, not enumerated."
+TB = "Trusts the Go 1.26.8 runtime and testing/synctest, rapid v1.3.0, and the harness's small reference models (see DESIGN.md section 7)."
+
 META = {
- "C19": {
-  "text": "Exhaustive enumeration of every one-byte field value of every GBN packet type and every byte string of length <= 3 through Deserialize, "
-          "plus random/fuzzed longer inputs, against the round-trip oracle; complete for the enumerated sub-domain, sampled beyond it.",
-  "design_ref": "DESIGN.md 5/C19",
-  "note": "Trusts Go runtime and the harness's value comparison (nil payload == empty payload).",
-  "technique": "exhaustive small-scope enumeration + rapid property-based testing + go native fuzzing (round-trip oracle)",
- },
+ "C01": {"text": "Generated fault schedules (drop/dup/delay per packet, both directions, all window sizes) against the prefix oracle. " + VT + " Absence of violations is evidence, not proof.",
+         "design_ref": "DESIGN.md 5/C01", "note": TB + " Transport model: order-preserving lossy FIFO (vnet.Link).",
+         "technique": "property-based testing (rapid) of generated fault schedules in virtual time, prefix oracle"},
+ "C02": {"text": "Exhaustive single-bit flips of whole records plus rapid-generated multi-edit scripts over the captured ciphertext of XX and KK sessions, through Machine, NoiseGrpcConn and NoiseConn, against the prefix oracle.",
+         "design_ref": "DESIGN.md 5/C02", "note": TB + " Scrypt cost lowered by the verif hook exactly as the repo's rpctest tag does.",
+         "technique": "exhaustive bit-flip fault enumeration + rapid edit scripts, prefix oracle"},
+ "C03": {"text": "rapid-generated matching / one-bit-different / random passphrases and right/wrong stored keys; oracle: both succeed iff secrets match, responder writes zero bytes on mismatch, payload never on the wire.",
+         "design_ref": "DESIGN.md 5/C03", "note": TB, "technique": "property-based testing (rapid), iff-oracle over recorded transcripts"},
+ "C04": {"text": "All 81 version-range combinations x both patterns exhaustively, all version-byte substitutions across acts, all single-bit flips of a handshake, random rewrites, payload size boundaries; oracle: if both complete, every agreed item matches.",
+         "design_ref": "DESIGN.md 5/C04", "note": TB, "technique": "exhaustive configuration + MITM-rewrite enumeration, agreement oracle"},
+ "C05": {"text": "Generated write-size sequences through mailbox conns + Noise over an in-memory relay with generated per-message drop/delay faults (virtual time) and stream failures (real time); prefix, bounded-progress and ciphertext-only oracles.",
+         "design_ref": "DESIGN.md 5/C05", "note": TB + " Relative to the in-memory model of the hashmail relay.", "technique": "property-based testing (rapid) with fault injection at an in-memory relay"},
+ "C06": {"text": "Generated finite fault prefixes followed by a reliable link; bounded-liveness oracle on delivery gaps derived from the endpoints' own timeouts (hook), no-closure oracle without keepalive, quiescence oracle. " + VT,
+         "design_ref": "DESIGN.md 5/C06", "note": TB + " Liveness is checked as bounded liveness in virtual time.", "technique": "property-based testing (rapid) in virtual time, bounded-progress oracle"},
+ "C07": {"text": "Exhaustive byte strings up to 3 bytes (4 in thorough) through the decoders, all 256 SYN N values against a live server, all 256 ACK/NACK values against reachable window states, mutated Noise acts, random/fuzzed longer inputs; oracle: error or ignore, never panic, window invariants hold.",
+         "design_ref": "DESIGN.md 5/C07", "note": TB, "technique": "exhaustive small-input enumeration + rapid + go native fuzzing, crash/invariant oracle"},
+ "C08": {"text": "Generated interleavings of two directions over thousands of records (several key rotations) with equal and distinct plaintexts; oracles: exact decryption, pairwise-distinct ciphertexts of equal plaintexts, fresh (key,nonce) via hook, no plaintext window on the wire.",
+         "design_ref": "DESIGN.md 5/C08", "note": TB, "technique": "property-based testing (rapid), round-trip + distinctness oracle"},
+ "C09": {"text": "Exhaustive (base,size,value) enumeration of the send-queue bookkeeping for small sequence spaces against an unbounded-integer reference, plus generated virtual-time scenarios with a sound wire-level outstanding-packet monitor and a blocking-behaviour timing oracle.",
+         "design_ref": "DESIGN.md 5/C09", "note": TB + " The queue is reached through the verif hook wrapper.", "technique": "exhaustive small-scope enumeration + rapid scenarios, reference-model and invariant oracles"},
+ "C10": {"text": "Generated drop/dup/delay over handshake packets, stale packets of every type queued beforehand, all client N, drawn start offsets, retry loops on both sides; safety oracle (server n is a delivered SYN value != 255, paired ends agree) and bounded convergence oracle. " + VT,
+         "design_ref": "DESIGN.md 5/C10", "note": TB, "technique": "property-based testing (rapid) in virtual time"},
+ "C11": {"text": "Model-based generated histories (connect/transfer/close/relay failure/second client) over Server.Accept and Client.Dial on an in-memory relay; invariants after every step.",
+         "design_ref": "DESIGN.md 5/C11", "note": TB + " Relative to the in-memory relay model.", "technique": "stateful property-based testing (rapid action lists)"},
+ "C12": {"text": "Generated close events (who/when/how often/transport condition) over running scenarios; oracles: bounded Close, blocked calls fail, peer told by FIN, and a goroutine-leak detector based on the synctest bubble. " + VT,
+         "design_ref": "DESIGN.md 5/C12", "note": TB + " Timers without a goroutine are not observable.", "technique": "property-based testing (rapid) in virtual time with leak detection"},
+ "C13": {"text": "Generated keepalive settings and silence moments across send-loop situations (idle, mid-burst, window full); bounded detection oracle and never-close-a-live-peer oracle over long idle periods. " + VT,
+         "design_ref": "DESIGN.md 5/C13", "note": TB, "technique": "property-based testing (rapid) in virtual time, bounded-time oracle"},
+ "C14": {"text": "Exhaustive lengths x chunk sizes for small scopes plus generated message sequences with faults and with send/receive deadlines expiring inside messages; equality-of-message-lists oracle.",
+         "design_ref": "DESIGN.md 5/C14", "note": TB, "technique": "exhaustive small-scope enumeration + rapid, list-equality oracle"},
+ "C15": {"text": "Generated write-size and read-buffer-size sequences over NoiseGrpcConn, NoiseConn and the plain mailbox conn; oracle: n <= len(buf), no spurious error, concatenation equality, oversize writes rejected or chunked.",
+         "design_ref": "DESIGN.md 5/C15", "note": TB, "technique": "property-based testing (rapid), stream-equality oracle"},
+ "C16": {"text": "Differential: every clean handshake configuration over a message-preserving pipe vs a fragmenting reader; all 2-/3-way partitions of a record's wire bytes into partial writes for payloads 0..24, random finer ones.",
+         "design_ref": "DESIGN.md 5/C16", "note": TB, "technique": "differential testing + exhaustive partition enumeration"},
+ "C17": {"text": "Generated entropies/phrases/keys; round-trip and equality oracles for the mnemonic codec and SID derivation, stream-direction agreement observed at the in-memory relay.",
+         "design_ref": "DESIGN.md 5/C17", "note": TB, "technique": "property-based testing (rapid), round-trip and agreement oracles"},
+ "C18": {"text": "Race-detector runs of generated scenarios whose timers and packet arrivals coincide in virtual time, with extra API goroutines, plus generated call-mix stress of the ticker and timeout manager; the weakest claim of the set: only interleavings that ran are checked.",
+         "design_ref": "DESIGN.md 5/C18", "note": TB + " Trusts the Go race detector.", "technique": "property-based schedule generation under the Go race detector"},
+ "C19": {"text": "Exhaustive enumeration of every one-byte field value of every GBN packet type and every byte string of length <= 3 through Deserialize, plus random/fuzzed longer inputs, against the round-trip oracle; complete for the enumerated sub-domain, sampled beyond it.",
+         "design_ref": "DESIGN.md 5/C19", "note": "Trusts Go runtime and the harness's value comparison (nil payload == empty payload).",
+         "technique": "exhaustive small-scope enumeration + rapid property-based testing + go native fuzzing (round-trip oracle)"},
+ "C20": {"text": "Model-based generated histories of Sent/Received/clock-advance events on a TimeoutManager in virtual time; the statement's clauses are evaluated after every event against harness-side bookkeeping.",
+         "design_ref": "DESIGN.md 5/C20", "note": TB, "technique": "stateful property-based testing (rapid) against a reference model"},
 }
 
 def not_applicable():
